@@ -596,6 +596,49 @@ theorem readMetaH_fields (fr : Framer) (mhls : Nat) (hdec : Hpack.Decoder) (bs :
     | _ => simp [hrd] at hres
 
 
+/-! ### Truncated only when the header list exceeds the limit -/
+
+/-- the emit callback never sets `Truncated` while the fields offered still fit. -/
+theorem foldl_not_truncated (fs : List Field) (st : MetaState) (ht : st.truncated = false)
+    (hs : sizeSum fs ≤ st.remainSize) : (fs.foldl metaEmit st).truncated = false := by
+  induction fs generalizing st with
+  | nil => exact ht
+  | cons f rest ih =>
+    have hsum : sizeSum (f :: rest) = f.size + sizeSum rest := by simp [sizeSum]
+    rw [hsum] at hs
+    simp only [List.foldl_cons]
+    unfold metaEmit
+    cases he : st.enabled with
+    | false => simp only [Bool.not_false, ↓reduceIte]; exact ih st ht (by omega)
+    | true =>
+      by_cases hi : metaInvalid st f = true
+      · simp only [hi, Bool.not_true, Bool.false_eq_true, ↓reduceIte]
+        exact ih _ ht (by simp only; omega)
+      have hsz : ¬ f.size > st.remainSize := by omega
+      simp only [hi, hsz, Bool.not_true, Bool.false_eq_true, ↓reduceIte]
+      exact ih _ ht (by simp only; omega)
+
+/-- `Truncated` is set only if the header list really exceeds the limit: a returned
+MetaHeadersFrame whose decoded header list (everything `hpack.Decoder.Write` emits for the block)
+has size ≤ MaxHeaderListSize — in particular size exactly equal to it — is not Truncated and
+carries the complete list. -/
+theorem readMetaH_truncated_only_if_over (fr : Framer) (mhls : Nat) (hdec : Hpack.Decoder) (bs : List Nat)
+    (h : FrameHeader) (prio : PriorityParam) (fields : List Field) (trunc : Bool)
+    (hres : (readMetaH fr mhls hdec bs).res = .ok (.metaHeaders h prio fields trunc)) :
+    ∃ frag frs, (readFrame fr bs).res = .ok (.headers h prio frag) ∧
+      (sizeSum (((Hpack.runChunks true (prepDecoder hdec mhls) (frag :: frs)).2.1).map toField) ≤ maxHeaderListSize mhls →
+        trunc = false ∧ fields = ((Hpack.runChunks true (prepDecoder hdec mhls) (frag :: frs)).2.1).map toField) := by
+  obtain ⟨frag, frs, h1, _, h3, h4⟩ := readMetaH_fields fr mhls hdec bs h prio fields trunc hres
+  refine ⟨frag, frs, h1, fun hle => ?_⟩
+  have ht : trunc = false := by
+    rw [h3]; exact foldl_not_truncated _ _ rfl hle
+  exact ⟨ht, h4 ht⟩
+
+/-- the same for the abstract model: one `hdec.Write` whose fields fit does not truncate. -/
+theorem metaWrite_not_truncated (st : MetaState) (d : FragDec) (ht : st.truncated = false)
+    (hs : sizeSum d.fields ≤ st.remainSize) : (metaWrite st d).1.truncated = false :=
+  foldl_not_truncated _ _ ht hs
+
 /-! ### Non-vacuity -/
 
 /-- HEADERS (stream 1, END_HEADERS) with the block `82 84`: `:method: GET`, `:path: /`. -/
